@@ -172,6 +172,10 @@ def run(c):
                 r = Resp()
                 r.headers = h
                 e.response = r
+                own = c.get("own_empty")
+                if own is not None:
+                    # the exception has a headers attribute of its own, present but empty (falsy): the response's headers count
+                    e.headers = {"dict": {}, "list": [], "tuple": ()}[own]
             else:
                 e.headers = h
         texts = {}
